@@ -52,9 +52,9 @@ def fresh(cfg):
 
 def ops_fn(cfg, hist):
     if not hist:
-        return [("ev",), ("evinf",), ("intT", 0.3)]
+        return [("ev",), ("evinf",), ("intT", 0.3), ("fault", 2), ("faultki", 2)]
     last = hist[-1][0]
-    if last == "intT":
+    if last in ("intT", "fault", "faultki"):
         return [("ev",)]
     if last in ("ev", "evinf"):
         return [("int",), ("ev2",), ("reset",)]
@@ -99,6 +99,21 @@ def apply_op(a, cfg, prob, op, dtype):
                 a.integrate(dtype(obs["target"]), callback=b)
             elif op[0] == "reset":
                 a.reset()
+            elif op[0] in ("fault", "faultki"):
+                # an earlier call of the history ended with a failure (a callback raising at its second step: an exception, or a keyboard interrupt);
+                # whatever that call left in the status, a later run stopped by a terminal event reports termination by event
+                st = dict(n=0)
+
+                def cb(s_):
+                    st["n"] += 1
+                    if st["n"] == op[1]:
+                        raise (KeyboardInterrupt() if op[0] == "faultki" else RuntimeError("boom"))
+                obs["target"] = tf
+                try:
+                    a.integrate(dtype(tf), callback=[cb, b])
+                except (de.exception_types.FailedIntegration, KeyboardInterrupt) as ex:
+                    if isinstance(ex, de.exception_types.FailedIntegration) and driver.budget_hit(ex):
+                        raise
     except de.exception_types.FailedIntegration as e:
         obs["raised"] = "budget" if driver.budget_hit(e) else repr(e.__cause__)[:200]
     obs["i1"] = len(a) - 1
@@ -153,6 +168,12 @@ def step(cfg, hist):
     if kind in ("ev", "evinf", "ev2"):
         evs = obs["evs"]
         stop = expected_stop(cfg, prob, evs, obs["t_before"], d)
+        # (a terminal root exactly where the call starts - the previous call of the history happened to end on it - may be reported by this call, which then
+        #  stops at once: a crossing at the hand-over belongs to one of the two calls, C07; both readings are accepted)
+        at_start = any(abs(rt - obs["t_before"]) <= 1e-9 for g_ in evs if g_.is_terminal
+                       for rt in ec.exact_roots(g_.spec, prob, obs["t_before"] - d * 1e-6, obs["t_before"] + d * 1e-6))
+        if at_start and abs(float(a.t[-1]) - obs["t_before"]) <= 1e-5:
+            stop = float(a.t[-1])
         new_events = list(a.events)[obs["nev0"]:]
         term = [st for st in new_events if st.event.is_terminal]
         accurate = cfg["problem"] == "lin" or name in ("RK4Solver", "RK45CKSolver", "ABAs5o6HSolver")
@@ -200,7 +221,7 @@ def step(cfg, hist):
                                     r.v("C09/nonterminal-before-missed/%s" % name, "non-terminal events before the terminal one are reported", dict(case, event_index=j),
                                         observed=dict(root=rt, events=[float(s.t) for s in new_events]), expected="reported")
         elif stop is None or (stop - tf) * d > 1e-9:
-            if kind != "evinf" and a.integration_status == TERMINATED and cfg["problem"] == "lin":
+            if kind != "evinf" and a.integration_status == TERMINATED and cfg["problem"] == "lin" and not at_start:
                 r.v("C09/spurious-termination/%s" % name, "no terminal event lies ahead: the run reaches the end of the span", case, observed=dict(t_last=T[-1], events=[float(s.t) for s in new_events]), expected="ends at tf")
         ok = driver.segment_invariants(r, "C09", case, a.t, a.y, obs["i0"], obs["i1"], T[-1], t0_first, y0, dtype)
     elif kind in ("int", "intT"):
@@ -290,7 +311,7 @@ def infgrow_case(case):
 
 
 def run(ctx):
-    ctx.rule = ("E1 breadth-first search to depth 3 over {integrate(events), integrate(+-inf, events), integrate(30%)} then {integrate(), integrate(other terminal event), reset} "
+    ctx.rule = ("E1 breadth-first search to depth 3 over {integrate(events), integrate(+-inf, events), integrate(30%), a call that fails at its second step (exception / keyboard interrupt)} then {integrate(), integrate(other terminal event), reset} "
                 "from every configuration: 2 problems x 7 signed spans x 17 event menus (terminal / non-terminal mixes in every order of their roots, two terminals, same root, "
                 "roots on step boundaries) x 5 methods x dense on/off x scales; invariants after every transition against the closed-form roots; "
                 "distinct = distinct (method, problem, direction, dense, op-name history, status) classes")
